@@ -258,6 +258,15 @@ pub fn run(tier: Tier) -> i32 {
         }
         docs.push((format!("link.all-fields={s:?}"), l));
     }
+    // the structural families of C16 (artifact shapes, environments, byproduct members, rule forms, key tables)
+    for (n, l) in crate::props::c16::links(false) {
+        if !n.contains("other-field-named") && !n.starts_with("field:") {
+            docs.push((format!("c16-link/{n}"), MetadataWrapper::Link(l)));
+        }
+    }
+    for (n, l) in crate::props::c16::layouts(false).into_iter().filter(|(n, _)| !n.starts_with("field:")).step_by(if tier.thorough() { 1 } else { 4 }) {
+        docs.push((format!("c16-layout/{n}"), MetadataWrapper::Layout(l)));
+    }
     let ed = keys::get("ed1");
     let accs = util::par_fold(&docs, Acc::new, |acc, i, (d, meta)| {
         acc.nontrivial += 1;
